@@ -17,7 +17,7 @@ pub fn meta() -> Meta {
     Meta {
         id: "C14",
         level: "exploration",
-        rule: "forged unambiguous tables through the real generic_modes::distance (the function behind `ska distance`, threads=1), output lines compared byte for byte with the model's integers rendered with the same formatting: every multiset of <=3 rows over {A,C,G,-}^n (n=2,3; n=4 with <=2 rows in the quick tier, 3 in thorough), x every threshold 0..n x {default, --allow-ambiguous}; every sample permutation for tables of <=2 rows; n=5..12 with 'j copies of x, rest y' rows; planted-SNP genomes end to end through the CLI. Also asserted directly: identical samples at 0/0, each unordered pair exactly once in input order, proportion in [0,1]. Non-trivial = (table, threshold, flag) triple; distinct outcomes = distinct expected outputs.".into(),
+        rule: "forged unambiguous tables through the real generic_modes::distance (the function behind `ska distance`, threads=1), output lines compared byte for byte with the model's integers rendered with the same formatting: every multiset of <=3 rows over {A,C,G,-}^n (n=2,3; n=4 with <=2 rows in the quick tier, 3 in thorough), x every threshold 0..n x {default, --allow-ambiguous}; every sample permutation for tables of <=2 rows; n=5..12 with 'j copies of x, rest y' rows; planted-SNP genomes end to end through the CLI; large three-sample tables of 65537 and 131073 rows (thorough: 65535, 65536, 65537, 100000, 131073, 300000) cycling through variable, gapped and constant rows, in-process and through the CLI with 1 and 4 threads. Also asserted directly: identical samples at 0/0, each unordered pair exactly once in input order, proportion in [0,1]. Non-trivial = (table, threshold, flag) triple; distinct outcomes = distinct expected outputs.".into(),
         assumptions: vec!["frequencies (t-1/2)/n so that ceil(f*n)=t robustly; threshold 0 and 1 both mean 'no frequency filter' in the statement (a stored k-mer is in >=1 sample)".into()],
         exhaustive_when_uncapped: true,
     }
@@ -32,7 +32,7 @@ fn table_of(rows: &[Vec<u8>]) -> Table {
     Table { k: 5, rc: true, names: (0..n).map(|i| format!("s{i}")).collect(), rows: m }
 }
 
-fn real_distance(t: &Table, min_freq: f64, allow_ambig: bool) -> Result<Vec<String>, String> {
+pub fn real_distance(t: &Table, min_freq: f64, allow_ambig: bool) -> Result<Vec<String>, String> {
     let mut a: MergeSkaArray<u64> = real::forge_array(t);
     let out = scratch::path("c14.dist");
     real::catch(|| ska::generic_modes::distance(&mut a, &Some(out.clone()), min_freq, !allow_ambig, 1))?;
@@ -236,6 +236,48 @@ pub fn run(ctx: &Ctx, rep: &mut Report) {
             }
         }
         rep.completed.push("CLI planted-SNP genomes".into());
+    }
+    // large tables (more rows than any plausible work-sharing block: 2^16 and 2^17 rows and their neighbours), three
+    // samples, rows cycling through variable, gapped and constant patterns; in-process and, for one size, through the
+    // CLI with --threads 1 and 4
+    if !capped {
+        let patterns: [&[u8; 3]; 10] = [b"AAC", b"AC-", b"A-A", b"ACG", b"-AA", b"CCC", b"AAA", b"A--", b"GGT", b"TTT"];
+        let sizes: Vec<usize> = if thorough { vec![65_535, 65_536, 65_537, 100_000, 131_073, 300_000] } else { vec![65_537, 131_073] };
+        for size in sizes {
+            idx += 1;
+            if !ctx.mine(idx) {
+                continue;
+            }
+            let mut rows = BTreeMap::new();
+            for i in 0..size {
+                rows.insert(String::from_utf8(nth_string(b"ACGT", 12, (i as u64 * 7919) % (1 << 24))).unwrap(), patterns[(i * 7 + i / 10) % 10].to_vec());
+            }
+            let t = Table { k: 13, rc: true, names: vec!["s0".into(), "s1".into(), "s2".into()], rows };
+            for thr in [0usize, 2] {
+                for aa in [false, true] {
+                    rep.evaluations += 1;
+                    rep.nontrivial += 1;
+                    rep.corner("large_table");
+                    if let Err(e) = check_one(&t, thr, aa) {
+                        rep.violate(format!("large table rows={size} thr={thr} aa={aa}"), format!("{size} rows, threshold {thr}, allow-ambiguous={aa}: {e}"), json!({"large": size, "thr": thr, "aa": aa}));
+                    }
+                }
+            }
+            if size == 131_073 {
+                let dir = scratch::path("c14big");
+                std::fs::create_dir_all(&dir).unwrap();
+                FileState::fresh(t.clone()).write(&format!("{dir}/in.skf"));
+                for threads in ["1", "4"] {
+                    rep.evaluations += 1;
+                    let o = cli::run(&["distance", "in.skf", "--threads", threads], &dir, None);
+                    let got: Vec<String> = String::from_utf8_lossy(&o.stdout).lines().skip(1).map(|s| s.to_string()).collect();
+                    if o.code != 0 || got != t.distance_lines(0) {
+                        rep.violate(format!("cli large table threads={threads}"), format!("ska distance --threads {threads} on {size} rows (exit {}) prints {:?}, expected {:?}", o.code, got, t.distance_lines(0)), json!({"cli": true, "large": size, "threads": threads}));
+                    }
+                }
+            }
+        }
+        rep.completed.push("large tables".into());
     }
     rep.sample(json!({"rows":["AAC","A-C","GGG"],"thr":2,"expected":table_of(&[b"AAC".to_vec(), b"A-C".to_vec(), b"GGG".to_vec()]).distance_lines(2)}));
     rep.capped = capped;
